@@ -190,6 +190,8 @@ func (e *Ev) evBuiltin(x *ast.CallExpr, name string) Val {
 			return VInt{a.N}
 		case VIfaces:
 			return VInt{a.N}
+		case VRefs:
+			return VInt{a.N}
 		case VRunes:
 			return VInt{a.N}
 		case VSubmatch:
